@@ -72,6 +72,8 @@ def sent(bit: int) -> int:
 
 
 ALL_SENTINELS = {sent(b): b for b in R21}
+# ids at the edges of the signed 32-bit range: 0 is an ordinary id ("present" means `is not None`)
+BOUNDARY_IDS = [0, -1, 0x7FFFFFFF, -0x80000000]
 RICH_BASE = [777, 1, 0x7FFFFFF0]  # rich ids of cells whose rich id is mandatory and not the sentinel
 
 
@@ -183,8 +185,9 @@ def make_cell(kind, payload):
     return c
 
 
-def want_attrs_i(kind, mask, payload):
-    """attribute -> id to set, for one subset of the optional attributes."""
+def want_attrs_i(kind, mask, payload, zi=-1, bv=None):
+    """attribute -> id to set, for one subset of the optional attributes; member `zi` of the subset
+    (index into OPT) carries the boundary id `bv` instead of its sentinel."""
     want = {}
     for i, (a, bit) in enumerate(OPT):
         if mask >> i & 1:
@@ -195,6 +198,8 @@ def want_attrs_i(kind, mask, payload):
         want["_rich_id"] = payload
     if kind == "text+rich":
         want["_rich_id"] = RICH_BASE[1] if mask & 1 else RICH_BASE[0]
+    if zi >= 0:
+        want[OPT[zi][0]] = bv
     return want
 
 
@@ -209,6 +214,8 @@ def _same_value(got, want):
 
 
 def _pattern(got, want):
+    if want in BOUNDARY_IDS and want is not False and got != want:
+        return ("lost" if got is None else "garbled") + f":id={want}"
     if want is not None and got is None:
         return "lost"
     if want is None and got is not None:
@@ -232,18 +239,19 @@ def _fmt_id(v):
     return _short(v)
 
 
-def eval_i(kind, mask, cls, rep):
-    """One (kind, optional-attribute subset, payload) through real encode -> real decode.
-    Returns (failures, digest-of-record-or-None, info)."""
+def eval_i(kind, mask, cls, rep, zi=-1, bv=None):
+    """One (kind, optional-attribute subset, payload) through real encode -> real decode; with
+    zi >= 0 the subset member OPT[zi] carries the boundary id bv (0, -1, +-2^31) instead of its sentinel.
+    Returns (failures, record-or-None, info)."""
     out = []
     payload = PAYLOADS_I[kind][cls][rep]
-    want = want_attrs_i(kind, mask, payload)
+    want = want_attrs_i(kind, mask, payload, zi, bv)
     if kind == "rich":
         payload = want["_rich_id"]  # the text of a rich cell is whatever its rich id resolves to
     c = make_cell(kind, payload)
     for a, v in want.items():
         setattr(c, a, v)
-    here = f"kind={kind} payload={_short(payload)} attrs={{{', '.join(a[1:-3] for a in want)}}}"
+    here = f"kind={kind} payload={_short(payload)} attrs={{{', '.join(a[1:-3] + (f'={want[a]}' if want[a] in BOUNDARY_IDS else '') for a in want)}}}"
 
     def F(mech, pattern, detail):
         out.append(({"layer": "i", "mechanism": mech, "kind": kind, "pattern": pattern}, f"[{here}] {detail}"))
@@ -390,8 +398,12 @@ SECONDS_II = [
 EX_HI = [sum(m for bit, m in ref.EXTRAS6.items() if bit >= 13 and (i >> (bit - 13)) & 1) for i in range(64)]
 
 
+WORD_BITS = [b for b in OBS_BITS if b >= 3]  # the 13 interpreted 4-byte fields
+
+
 class Ctx:
-    def __init__(self, kind, k, r):
+    def __init__(self, kind, k, r, zb=None, bv=None):
+        """zb/bv: the interpreted 4-byte field of bit zb holds the boundary id bv instead of its sentinel."""
         self.kind, self.k, self.r = kind, k, r
         d = D128_II[k][r % len(D128_II[k])]
         us = DOUBLE_II[k][r % len(DOUBLE_II[k])]
@@ -407,6 +419,8 @@ class Ctx:
         for b in range(3, ref.NBITS):
             self.fb[b] = ref.word(sent(b))
             self.ev[b] = sent(b)
+        if zb is not None:
+            self.fb[zb], self.ev[zb] = ref.word(bv), bv
         self.tbyte = ref.CELL_TYPE[kind]
         self.h0 = bytes([ref.VERSION, self.tbyte, 0, 0, 0, 0])
         self.cls = CLASS_II[kind]
@@ -416,9 +430,9 @@ class Ctx:
         if kind in ("number", "currency"):
             self.val = (None, self.ev[0])
         elif kind == "text":
-            self.val = ("<s:None>", f"<s:{sent(3)}>")
+            self.val = ("<s:None>", f"<s:{self.ev[3]}>")
         elif kind == "rich":
-            self.val = ("<r:None>", f"<r:{sent(4)}>")
+            self.val = ("<r:None>", f"<r:{self.ev[4]}>")
         elif kind == "date":
             self.val = (None, dt)
         elif kind == "bool":
@@ -441,10 +455,10 @@ class Ctx:
 _CTX = {}
 
 
-def ctx_for(kind, k, r):
-    key = (kind, k, r)
+def ctx_for(kind, k, r, zb=None, bv=None):
+    key = (kind, k, r, zb, bv)
     if key not in _CTX:
-        _CTX[key] = Ctx(kind, k, r)
+        _CTX[key] = Ctx(kind, k, r, zb, bv)
     return _CTX[key]
 
 
@@ -509,37 +523,51 @@ def is_nontrivial(flags):
 # one evaluator for enumeration and replay
 # ---------------------------------------------------------------------------------------------
 def eval_case(case):
-    """case = ["i", kind, mask, cls, rep] or ["ii", kind, flags, k, r] -> list of (ident, detail)."""
+    """case = ["i", kind, mask, cls, rep(, member index, boundary id)] or
+    ["ii", kind, flags, k, r(, bit, boundary id)] -> list of (ident, detail)."""
     if case[0] == "i":
-        _, kind, mask, cls, rep = case
-        return eval_i(kind, mask, cls, rep)[0]
-    _, kind, flags, k, r = case
-    res = eval_ii(ctx_for(kind, k, r), flags)
+        return eval_i(*case[1:])[0]
+    _, kind, flags, k, r = case[:5]
+    res = eval_ii(ctx_for(kind, k, r, *case[5:]), flags)
     return res if isinstance(res, list) else []
+
+
+def boundary_members(mask, bmode):
+    """Which members of an attribute subset take the boundary id in turn."""
+    members = [i for i in range(len(OPT)) if mask >> i & 1]
+    if bmode == "each" or len(members) <= 2:
+        return members
+    return [members[0], members[-1]]
 
 
 def work_i(task):
     kind, cls, rep, lo, hi, step = task[:6]
+    bmode, bv = task[7], task[8]
     part = Part()
     digests = set()
     n = nx = 0
     for mask in range(lo, hi, step):
-        fails, buf, info = eval_i(kind, mask, cls, rep)
-        n += 1
-        for ident, detail in fails:
-            part.fail(ident, detail, ["i", kind, mask, cls, rep])
-        if buf is not None:
-            if mask:
-                digests.add(hashlib.blake2b(buf, digest_size=8).digest())
-            if info.get("extras80"):
-                nx += 1
-        part.outcome("i:" + ("ok" if not fails else "fail"))
+        for zi in ([-1] if bmode is None else boundary_members(mask, bmode)):
+            fails, buf, info = eval_i(kind, mask, cls, rep, zi, bv)
+            n += 1
+            for ident, detail in fails:
+                part.fail(ident, detail, ["i", kind, mask, cls, rep] + ([] if zi < 0 else [zi, bv]))
+            if buf is not None:
+                if mask:
+                    digests.add(hashlib.blake2b(buf, digest_size=8).digest())
+                if info.get("extras80"):
+                    nx += 1
+            part.outcome("i:" + ("ok" if not fails else "fail"))
     part.count("evaluations", n)
     part.count("i_records", n)
     part.count(f"i_records_{kind}", n)
-    part.count("i_records_complete_subsets" if step == 1 else "i_records_payload_sweep", n)
+    part.count("i_records_boundary_id" if bmode else "i_records_complete_subsets" if step == 1 else "i_records_payload_sweep", n)
+    if bmode and lo == 0 and kind == "number" and bv == 0:
+        _, buf, _ = eval_i(kind, 0b000000001010, cls, rep, 3, bv)
+        part.sample({"layer": "i", "case": ["i", kind, 0b1010, cls, rep, 3, bv], "attributes_set": {"_cell_style_id": sent(5), "_formula_id": bv},
+                     "record": buf.hex() if buf else None})
     part.count("i_first_generation_records_with_extras_0x80", nx)
-    if hi == NMASK and step == 1 and cls == 0 and rep == task[6]:
+    if bmode is None and hi == NMASK and step == 1 and cls == 0 and rep == task[6]:
         m = 0b101001010101
         _, buf, _ = eval_i(kind, m, cls, rep)
         part.sample({"layer": "i", "case": ["i", kind, m, cls, rep], "payload": _short(PAYLOADS_I[kind][cls][rep]),
@@ -549,23 +577,42 @@ def work_i(task):
     return d
 
 
+def flags_of(mode, x, nat, zb, others):
+    """The x-th flags word of an enumeration mode.
+    full: all 21 bits; sub: all subsets of bits 3..20 plus the kind's natural payload bits;
+    zint: bit zb plus all subsets of the other 15 interpreted bits; zfull: bit zb plus all subsets of the other 20 bits."""
+    if mode == "full":
+        return x
+    if mode == "sub":
+        return (x << 3) | nat
+    if mode == "zint":
+        f = 1 << zb
+        for i, b in enumerate(others):
+            if x >> i & 1:
+                f |= 1 << b
+        return f
+    return ((x >> zb) << (zb + 1)) | (1 << zb) | (x & ((1 << zb) - 1))
+
+
 def work_ii(task):
-    kind, k, r, mode, lo, hi = task
-    ctx = ctx_for(kind, k, r)
+    kind, k, r, mode, lo, hi, zb, bv = task
+    ctx = ctx_for(kind, k, r, zb, bv)
     part = Part()
     nat = NATURAL_II[kind]
+    others = [b for b in OBS_BITS if b != zb]
+    extra = [] if zb is None else [zb, bv]
     n = nontriv = skipped_field = 0
     res_count = [0, 0, 0]
     seen = set()
     for x in range(lo, hi):
-        flags = x if mode == "full" else (x << 3) | nat
+        flags = flags_of(mode, x, nat, zb, others)
         res = eval_ii(ctx, flags, seen)
         n += 1
         if res.__class__ is int:
             res_count[res] += 1
         else:
             for ident, detail in res:
-                part.fail(ident, detail, ["ii", kind, flags, k, r])
+                part.fail(ident, detail, ["ii", kind, flags, k, r] + extra)
             part.outcome("ii:fail")
         if is_nontrivial(flags):
             nontriv += 1
@@ -585,7 +632,10 @@ def work_ii(task):
     for name, c in zip(("ii:ok", "ii:payload-field-missing-rejected", "ii:payload-field-missing-fields-ok"), res_count):
         if c:
             part.outcome(name, c)
-    if lo == 0 and (mode == "sub" or k == r % 3):
+    if zb == 9 and bv == 0 and lo == 0 and kind == "number":
+        f = flags_of(mode, 0b101010101010101, nat, zb, others)
+        part.sample({"layer": "ii", "case": ["ii", kind, f, k, r, zb, bv], "mode": mode, "boundary": "formula id 0", "example_record": ctx.record(f).hex()})
+    if zb is None and lo == 0 and (mode == "sub" or k == r % 3):
         part.sample({"layer": "ii", "case": ["ii", kind, 0x155AA8 | nat, k, r], "kind": kind, "mode": mode, "payload_set": ctx.payload_desc, "example_record": ctx.record(0x155AA8 | nat).hex()})
     return part.dump()
 
@@ -625,7 +675,7 @@ def main():
         return run_replay(args, rp)
 
     run = Run(PID, "exploration", args)
-    run.max_samples = 18
+    run.max_samples = 20
     seed = args.seed
     thorough = args.tier == "thorough"
 
@@ -639,10 +689,20 @@ def main():
                 if rep in reps:  # complete product with all 2^12 attribute subsets
                     n_payloads += 1
                     for lo, hi in shards(NMASK, 2):
-                        tasks_i.append((kind, ci, rep, lo, hi, 1, reps[0]))
+                        tasks_i.append((kind, ci, rep, lo, hi, 1, reps[0], None, None))
                 else:  # quick tier: every other representative still travels with no and with all attributes
                     n_sweep += 1
-                    tasks_i.append((kind, ci, rep, 0, NMASK, NMASK - 1, -1))
+                    tasks_i.append((kind, ci, rep, 0, NMASK, NMASK - 1, -1, None, None))
+    # boundary ids: every subset x every member in turn holding id 0 (thorough: each boundary id);
+    # the other boundary ids on the lowest and on the highest member of every subset
+    n_boundary = 0
+    for kind in KINDS_I:
+        rep0 = seed % len(PAYLOADS_I[kind][0])
+        for bv in BOUNDARY_IDS:
+            bmode = "each" if thorough or bv == 0 else "ends"
+            n_boundary += len(OPT) << (len(OPT) - 1) if bmode == "each" else 2 * (NMASK - 1 - len(OPT)) + len(OPT)
+            for lo, hi in shards(NMASK, 4):
+                tasks_i.append((kind, 0, rep0, lo, hi, 1, -1, bmode, bv))
     # ---- layer (ii)
     tasks_ii = []
     n_full = n_sub = 0
@@ -651,18 +711,32 @@ def main():
             for k in range(3):
                 n_full += 1
                 for lo, hi in shards(1 << ref.NBITS, 64):
-                    tasks_ii.append((kind, k, seed, "full", lo, hi))
+                    tasks_ii.append((kind, k, seed, "full", lo, hi, None, None))
     else:
         full_kind = FULL_CANDIDATES[seed % len(FULL_CANDIDATES)]
         n_full = 1
         for lo, hi in shards(1 << ref.NBITS, 64):
-            tasks_ii.append((full_kind, seed % 3, seed, "full", lo, hi))
+            tasks_ii.append((full_kind, seed % 3, seed, "full", lo, hi, None, None))
         for i, kind in enumerate(KINDS_II):
             if kind != full_kind:
                 n_sub += 1
                 for lo, hi in shards(1 << (ref.NBITS - 3), 8):
-                    tasks_ii.append((kind, (seed + i) % 3, seed, "sub", lo, hi))
+                    tasks_ii.append((kind, (seed + i) % 3, seed, "sub", lo, hi, None, None))
         run.extra["ii_full_kind"] = full_kind
+    # boundary ids in each interpreted 4-byte field in turn: all subsets of the other 15 interpreted bits
+    # (quick: the kind of the complete sweep; thorough: all kinds), and in thorough id 0 over all 2^20 subsets of the other bits
+    n_zint = n_zfull = 0
+    zkind = FULL_CANDIDATES[seed % len(FULL_CANDIDATES)]
+    for kind in (KINDS_II if thorough else [zkind]):
+        for zb in WORD_BITS:
+            for bv in BOUNDARY_IDS:
+                n_zint += 1
+                tasks_ii.append((kind, seed % 3, seed, "zint", 0, 1 << (len(OBS_BITS) - 1), zb, bv))
+    if thorough:
+        for zb in WORD_BITS:
+            n_zfull += 1
+            for lo, hi in shards(1 << (ref.NBITS - 1), 16):
+                tasks_ii.append((zkind, seed % 3, seed, "zfull", lo, hi, zb, 0))
 
     digests = set()
     for res in pmap(work_ii, tasks_ii, args.jobs, ordered=True):
@@ -677,8 +751,13 @@ def main():
     run.floor(f"(i) every one of {n_payloads} (kind, payload) pairs x all 4096 attribute subsets executed", cnt["i_records_complete_subsets"] == n_payloads * NMASK and cnt["i_records_payload_sweep"] == 2 * n_sweep)
     run.floor("(i) all 9 kinds executed, each over >= 4096 subsets", all(cnt[f"i_records_{k}"] >= NMASK for k in KINDS_I) and len(KINDS_I) == 9)
     run.floor("(i) >= 90% of the records with at least one optional attribute are pairwise distinct byte strings",
-              len(digests) >= 0.9 * (n_payloads * (NMASK - 1) + n_sweep))
+              len(digests) >= 0.9 * (n_payloads * (NMASK - 1) + n_sweep + n_boundary))
     run.floor("(ii) every flag subset of the complete sweeps executed", cnt["ii_records_full"] == n_full << ref.NBITS and cnt["ii_records_sub"] == n_sub << (ref.NBITS - 3))
+    run.floor("(i) boundary ids: every subset x every member (id 0) / lowest and highest member (other boundary ids) executed for all 9 kinds",
+              cnt["i_records_boundary_id"] == n_boundary and n_boundary >= 9 * (len(OPT) << (len(OPT) - 1)))
+    run.floor("(ii) boundary ids: each of the 13 interpreted 4-byte fields x 4 boundary ids x all 2^15 subsets of the other interpreted bits executed",
+              cnt["ii_records_zint"] == n_zint << (len(OBS_BITS) - 1) and n_zint >= len(WORD_BITS) * len(BOUNDARY_IDS)
+              and cnt["ii_records_zfull"] == n_zfull << (ref.NBITS - 1))
     run.floor("(ii) fields judged on >= 80% of the records", cnt["ii_fields_judged"] + run.outcomes.get("ii:fail", 0) >= 0.8 * cnt["ii_records"])
     run.floor("(ii) >= 2^19 records carry an uninterpreted 0x100/0x800 field before an interpreted one",
               cnt["ii_records_with_0x100_or_0x800_before_an_interpreted_field"] >= 1 << 19)
@@ -698,8 +777,11 @@ def main():
                 "(ii) records (pairwise distinct by construction: kind, payload set, flags word) in which at least one interpreted field is preceded "
                 "by at least one other field, so that a wrong offset is observable",
         "exhaustive": True,
-        "bound": ("thorough: (i) 9 kinds x all payload representatives x 2^12 subsets; (ii) 9 kinds x 3 payload sets x 2^21 flag subsets" if thorough else
-                  "quick: (i) 9 kinds x one representative per payload class x 2^12 subsets, every other representative x {no, all} attributes; (ii) 2^21 flag subsets for one kind + 2^18 subsets of bits 3..20 for each of the other 8 kinds"),
+        "bound": ("thorough: (i) 9 kinds x all payload representatives x 2^12 subsets, 9 kinds x 4 boundary ids x every subset x every member; (ii) 9 kinds x 3 payload sets x 2^21 flag subsets, "
+                  "9 kinds x 13 fields x 4 boundary ids x 2^15 subsets of the other interpreted bits, 13 fields x id 0 x 2^20 subsets of all other bits" if thorough else
+                  "quick: (i) 9 kinds x one representative per payload class x 2^12 subsets, every other representative x {no, all} attributes; (ii) 2^21 flag subsets for one kind + 2^18 subsets of bits 3..20 for each of the other 8 kinds; "
+                  "boundary ids: (i) 9 kinds x every subset x every member holding id 0, x lowest/highest member holding -1, 2^31-1, -2^31; "
+                  "(ii) 13 fields x 4 boundary ids x 2^15 subsets of the other interpreted bits for one kind"),
     }
     return run.finish(cov)
 
